@@ -1,5 +1,7 @@
 """C04 Server connection lifecycle: accept/reject, disconnect handler exactly
 once (sequential histories for both servers; asyncio schedules in c04s)."""
+import inspect
+
 from hypothesis import strategies as st
 
 from .. import strategies as S
@@ -10,6 +12,8 @@ from ..world import World
 
 PID = 'C04'
 NSS = ['/', '/a', '/b', '/zzz']
+KICK = object()
+
 HANDLED = ['/', '/a']
 
 
@@ -20,6 +24,8 @@ def decision_st():
         st.just({'d': 'accept', 'ret': None}),
         st.just({'d': 'accept', 'ret': True}),
         st.just({'d': 'false'}),
+        # the handler disconnects the client it is asked about, and returns
+        st.just({'d': 'kick'}),
         st.fixed_dictionaries({'d': st.just('raise'),
                                'args': st.lists(val, max_size=4)}))
 
@@ -65,6 +71,15 @@ def config_st():
         'decisions': st.lists(decision_st(), min_size=1, max_size=8)})
 
 
+def kick_ok(case):
+    """Whether the connect handler of this configuration can disconnect the
+    client itself (on the asyncio server that takes a coroutine function
+    handler)."""
+    if not case['aio']:
+        return True
+    return bool(case['coro']) and case['style'] in ('fn3', 'fn2')
+
+
 def build(case, w, log):
     """Registers handlers per the configuration. log gets
     ('connect', ns, sid, environ, auth|NOAUTH) / ('disconnect', ns, sid,
@@ -84,11 +99,17 @@ def build(case, w, log):
             return d['ret']
         if d['d'] == 'false':
             return False
+        if d['d'] == 'kick':
+            return KICK if kick_ok(case) else None
         raise socketio.exceptions.ConnectionRefusedError(*d['args'])
 
     def on_connect(ns, sid, environ, auth=NO):
         log.append(('connect', ns, sid, environ, auth))
-        return decide()
+        r = decide()
+        if r is KICK:
+            # (a coroutine on the asyncio server: awaited by wrap())
+            return sio.disconnect(sid, namespace=ns)
+        return r
 
     def on_disconnect(ns, sid, reason=NO):
         log.append(('disconnect', ns, sid, reason))
@@ -98,7 +119,10 @@ def build(case, w, log):
             return f
 
         async def g(*a):
-            return f(*a)
+            r = f(*a)
+            if inspect.isawaitable(r):
+                r = await r
+            return r
         return g
 
     style = case['style']
@@ -338,9 +362,21 @@ def _run(case, w):
                 auth = None
             dup = w.client_on(t, ns) is not None
             nlog = len(log)
+
+            def table():
+                return {n_: {repr(r): sorted(map(repr, mem.items()))
+                             for r, mem in rooms_.items()}
+                        for n_, rooms_ in sio.manager.rooms.items()}
+            before_tab = table()
             ci, pkts = w.connect(t, ns, auth)
             new = log[nlog:]
             if not served(case, ns) or dup:
+                if table() != before_tab:
+                    raise Violation('membership-retained',
+                                    'a refused request (ns %s, duplicate=%s) '
+                                    'changed the room table: %r -> %r'
+                                    % (ns, dup, before_tab.get(ns),
+                                       table().get(ns)))
                 if new:
                     raise Violation('handler-ran-for-refused-request',
                                     repr(new))
@@ -354,7 +390,9 @@ def _run(case, w):
             hh = has_handler(case, ns)
             conn = [e for e in new if e[0] == 'connect']
             if hh:
-                if len(conn) != 1 or len(new) != 1:
+                upcoming = decisions[nattempt % len(decisions)]
+                kicked = upcoming['d'] == 'kick' and kick_ok(case)
+                if len(conn) != 1 or len(new) != (2 if kicked else 1):
                     raise Violation('connect-handler-count', repr(new))
                 e = conn[0]
                 if e[1] != ns:
@@ -376,7 +414,40 @@ def _run(case, w):
                     raise Violation('connect-handler-count', repr(new))
                 d = {'d': 'accept'}
                 hsid = None
-            if d['d'] == 'accept':
+            if d['d'] == 'kick' and not kick_ok(case):
+                d = {'d': 'accept'}
+            if d['d'] == 'kick':
+                # the handler ended the connection itself: a DISCONNECT is
+                # the server's last word (after the CONNECT it had already
+                # sent with always_connect), the disconnect handler ran
+                # once, nothing is left
+                want_t = [wire.CONNECT, wire.DISCONNECT] \
+                    if case['always_connect'] else [wire.DISCONNECT]
+                if [p['type'] for p in pkts] != want_t or any(
+                        p['nsp'] != ns for p in pkts):
+                    raise Violation('kick-frames', 'the connect handler '
+                                    'disconnected its client: %r' % (pkts,))
+                if ci is not None:
+                    w.clients[ci]['alive'] = False
+                    w.clients[ci]['refused'] = True
+                dl = [e for e in log if e[0] == 'disconnect' and
+                      e[2] == hsid]
+                if len(dl) != 1 or dl[0][3] not in (
+                        NO, R.SERVER_DISCONNECT):
+                    raise Violation('kick-disconnect-handler', repr(dl))
+                # it was a connection (its disconnect handler ran): keep it
+                # in the books of the global disconnect accounting
+                if ci is None:
+                    w.clients.append({'t': t, 'ns': ns, 'sid': hsid,
+                                      'alive': False, 'refused': True})
+                    ci = len(w.clients) - 1
+                accepted[hsid] = ci
+                dict.__setitem__(disc_expected, hsid, {R.SERVER_DISCONNECT})
+                refused_sids.append((hsid, ns, t))
+                check_dead(hsid, ns, 'kicked')
+                labels['kicked_from_connect_handler'] = True
+                labels['nontrivial'] = True
+            elif d['d'] == 'accept':
                 if ci is None or [p['type'] for p in pkts] != [wire.CONNECT]:
                     raise Violation('accept-frames', repr(pkts))
                 sid = w.clients[ci]['sid']
@@ -544,6 +615,9 @@ def enumerate_sharded(tier, shard, nshards):
     # handlers of its loss are running
     cfgs.append({'sched': True, 'causes': ['lose', 'yconnect']})
     cfgs.append({'sched': True, 'causes': ['lose', 'yconnect', 'sdisc']})
+    # ... and another transport asks for a namespace meanwhile: it is served
+    cfgs.append({'sched': True, 'causes': ['lose', 'oconnect']})
+    cfgs.append({'sched': True, 'causes': ['sdisc', 'oconnect', 'lose']})
     for i, cfg in enumerate(cfgs):
         if i % nshards != shard:
             continue
@@ -616,6 +690,8 @@ def _sched_execute(case):
             return sock_r.receive(ep.Packet(ep.MESSAGE, '0{"refuse":1}'))
         if name == 'yconnect':
             return sock.receive(ep.Packet(ep.MESSAGE, '0/y,'))
+        if name == 'oconnect':
+            return sock_r.receive(ep.Packet(ep.MESSAGE, '0/y,'))
         return sock.close(wait=False, abort=True,
                           reason=w.h.reason.TRANSPORT_ERROR)
     tasks = []
@@ -693,6 +769,20 @@ def _sched_judge(case, s, o):
                                 '[%s]' % (ysid, len(y_inv), what))
             if len(y_inv) > 1:
                 raise Violation('disconnect-handler-twice', '/y [%s]' % what)
+        if 'oconnect' in names:
+            got_r = w.recv(o['tr'])
+            if [(p['type'], p['nsp']) for p in got_r] != [
+                    (wire.CONNECT, '/y')] or m.sid_from_eio_sid(
+                        w.t[o['tr']], '/y') is None:
+                raise Violation('bystander-connect-not-served',
+                                'another transport asked for /y while the '
+                                'victim was being disconnected: answered %r '
+                                '[%s]' % (got_r, what))
+        if 'refuse' in names:
+            got_r = w.recv(o['tr'])
+            if [(p['type'], p['nsp']) for p in got_r] != [
+                    (wire.CONNECT_ERROR, '/')]:
+                raise Violation('refusal-frames', '%r [%s]' % (got_r, what))
         if m.sid_from_eio_sid(w.t[o['tr']], '/') is not None:
             raise Violation('membership-retained', 'refused transport '
                             '[%s]' % what)
